@@ -10,19 +10,19 @@ import (
 
 // WorkerSpec tells one worker process what to run.
 type WorkerSpec struct {
-	Profiles []string `json:"profiles"`
-	SeedBase uint64   `json:"seed_base"`
-	Start    int      `json:"start"`
-	Count    int      `json:"count"`
-	Stride   int      `json:"stride"`
-	Out      string   `json:"out"`
-	Deadline int64    `json:"deadline_unix"`
-	KeepLog  bool     `json:"keep_log"`
-	Samples  int      `json:"samples"`
-	Replay   string   `json:"replay"` // replay file instead of generation
-	Minimise bool     `json:"minimise"`
-	MinBudgetSec int  `json:"min_budget_sec"`
-	ReplayDir string  `json:"replay_dir"`
+	Profiles     []string `json:"profiles"`
+	SeedBase     uint64   `json:"seed_base"`
+	Start        int      `json:"start"`
+	Count        int      `json:"count"`
+	Stride       int      `json:"stride"`
+	Out          string   `json:"out"`
+	Deadline     int64    `json:"deadline_unix"`
+	KeepLog      bool     `json:"keep_log"`
+	Samples      int      `json:"samples"`
+	Replay       string   `json:"replay"` // replay file instead of generation
+	Minimise     bool     `json:"minimise"`
+	MinBudgetSec int      `json:"min_budget_sec"`
+	ReplayDir    string   `json:"replay_dir"`
 }
 
 func mix(base uint64, i int) uint64 {
